@@ -8,6 +8,11 @@ refactoring introduces, so that every rule sees one form:
                                              else: return B
           x = A if c else B             ->   if c: x = A
                                              else: x = B
+  N1b S(.. A if c else B ..)            ->   if c: S(.. A ..)
+                                             else: S(.. B ..)         (the single, unconditionally evaluated conditional expression
+                                                                       of a return / assignment value)
+  N13 a call of a small private module-level helper whose body is assignments / ifs / returns (no loop, no raise) is replaced by
+      the helper's result expression with the arguments in place of the parameters
   N2  membership in a display of alternatives
           e in (a, b, c)                ->   e == a or e == b or e == c
           e not in (a, b)               ->   e != a and e != b
@@ -23,8 +28,15 @@ refactoring introduces, so that every rule sees one form:
       else: xs = [..]                  ->     else: xs = [..]; return f(xs)
       return f(xs)
       (tail duplication; only when an arm ends by assigning a list display / comprehension to a name the return mentions)
+  N8b if c: f = A                             if c: return A(x)
+      else: f = B                      ->     else: return B(x)       f read only as a callee in the (short, exiting) tail
+      return f(x)
   N9  xs = [E for ..]; S(xs)           ->     S([E for ..])      xs a single-use local, S the next statement
+      x = a.b; return S(x)             ->     return S(a.b)
       (operands of S evaluated before xs are evaluated after it instead: no rule depends on the order of pure operands)
+  N10 [E(t) for t in (a, b, c)]          ->    [E(a), E(b), E(c)]
+  N11 if not c: A                            if c: B
+      else: B                          ->    else: A           (B not an elif chain)
   N4  negated disjunction / conjunction in a test position is left to the fact splitter (cfg._split handles polarity)
 
 Set VERIF_NO_NORMALIZE=1 to analyse the raw AST (development aid)."""
@@ -50,14 +62,90 @@ class _Normalise(ast.NodeTransformer):
         self.generic_visit(st)
         if isinstance(st.value, ast.IfExp):
             return self._split_ifexp(st, st.value, lambda v: ast.Return(value=v))
+        if st.value is not None:
+            lifted = self._lift(st, st.value, lambda v: ast.Return(value=v))
+            if lifted is not None:
+                return lifted
         return st
 
     def visit_Assign(self, st):
         self.generic_visit(st)
-        if isinstance(st.value, ast.IfExp) and all(isinstance(t, (ast.Name, ast.Attribute)) for t in st.targets):
+        if all(isinstance(t, (ast.Name, ast.Attribute)) for t in st.targets):
             import copy
-            return self._split_ifexp(st, st.value, lambda v: ast.Assign(targets=[copy.deepcopy(t) for t in st.targets], value=v))
+            make = lambda v: ast.Assign(targets=[copy.deepcopy(t) for t in st.targets], value=v)
+            if isinstance(st.value, ast.IfExp):
+                return self._split_ifexp(st, st.value, make)
+            lifted = self._lift(st, st.value, make)
+            if lifted is not None:
+                return lifted
         return st
+
+    # ---- N1b  S(.. A if c else B ..)  ->  if c: S(.. A ..) else: S(.. B ..)   for the one conditional expression of a return /
+    #           assignment value that is evaluated unconditionally (not under and / or / another conditional / a lambda / a comprehension)
+    def _lift(self, st, value, make):
+        import copy
+        found = []
+
+        def scan(x, guarded):
+            if isinstance(x, ast.IfExp):
+                found.append((x, guarded))
+                return
+            if isinstance(x, (ast.Lambda, ast.ListComp, ast.GeneratorExp, ast.SetComp, ast.DictComp)):
+                for y in ast.walk(x):
+                    if isinstance(y, ast.IfExp):
+                        found.append((y, True))
+                return
+            if isinstance(x, ast.BoolOp):
+                for i, v in enumerate(x.values):
+                    scan(v, guarded or i > 0)
+                return
+            for ch in ast.iter_child_nodes(x):
+                scan(ch, guarded)
+        scan(value, False)
+        if len(found) != 1 or found[0][1]:
+            return None
+        target = found[0][0]
+        # build the two variants by replacing the IfExp node (identity) in deep copies
+        def variant(branch):
+            memo = {}
+            v = copy.deepcopy(value, memo)
+            t2 = memo[id(target)]
+            if v is t2:
+                return copy.deepcopy(branch)
+            return _ReplaceNode(t2, copy.deepcopy(branch)).visit(v)
+        va, vb = variant(target.body), variant(target.orelse)
+        node = ast.If(test=target.test, body=[make(va)], orelse=[make(vb)])
+        ast.copy_location(node, st)
+        for x in node.body + node.orelse:
+            ast.copy_location(x, st)
+        ast.fix_missing_locations(node)
+        return self.visit(node)
+
+    # ---- N11  if not c: A else: B   ->   if c: B else: A      (plain else only: an elif chain keeps its shape)
+    def visit_If(self, st):
+        self.generic_visit(st)
+        if isinstance(st.test, ast.UnaryOp) and isinstance(st.test.op, ast.Not) and st.orelse and \
+                not (len(st.orelse) == 1 and isinstance(st.orelse[0], ast.If)) and not (len(st.body) == 1 and isinstance(st.body[0], ast.If)):
+            st.test, st.body, st.orelse = st.test.operand, st.orelse, st.body
+        return st
+
+    # ---- N10  [E(t) for t in (a, b, c)]   ->   [E(a), E(b), E(c)]     (t a plain name, a, b, c free of t)
+    def visit_ListComp(self, n):
+        self.generic_visit(n)
+        if len(n.generators) == 1:
+            g = n.generators[0]
+            if isinstance(g.target, ast.Name) and not g.ifs and not g.is_async and isinstance(g.iter, (ast.Tuple, ast.List)) \
+                    and 1 <= len(g.iter.elts) <= 6 and not any(isinstance(x, ast.Starred) for x in g.iter.elts) \
+                    and not any(isinstance(x, (ast.ListComp, ast.GeneratorExp, ast.SetComp, ast.DictComp, ast.Lambda, ast.NamedExpr)) for x in ast.walk(n.elt)):
+                import copy
+                elts = []
+                for x in g.iter.elts:
+                    elts.append(_SubstName(g.target.id, x).visit(copy.deepcopy(n.elt)))
+                node = ast.List(elts=elts, ctx=ast.Load())
+                ast.copy_location(node, n)
+                ast.fix_missing_locations(node)
+                return node
+        return n
 
     # ---- N2
     def visit_Compare(self, n):
@@ -195,6 +283,94 @@ class _Normalise(ast.NodeTransformer):
         sink(chain)
         return stmts[:-1]
 
+    # ---- N8b / N9b  callee aliases:  if c: f = A            if c: return A(x)
+    #                                 else: f = B      ->     else: return B(x)
+    #                                 return f(x)
+    @staticmethod
+    def _is_ref(e):
+        while isinstance(e, ast.Attribute):
+            e = e.value
+        return isinstance(e, ast.Name)
+
+    @staticmethod
+    def _callee_only(stmts, name):
+        """name is read in stmts only as the function of a call, at least once, and never stored"""
+        funcs = set()
+        n_use = 0
+        for st in stmts:
+            for x in ast.walk(st):
+                if isinstance(x, ast.Call) and isinstance(x.func, ast.Name) and x.func.id == name:
+                    funcs.add(id(x.func))
+        for st in stmts:
+            for x in ast.walk(st):
+                if isinstance(x, ast.Name) and x.id == name:
+                    if not isinstance(x.ctx, ast.Load) or id(x) not in funcs:
+                        return False
+                    n_use += 1
+                if isinstance(x, (ast.FunctionDef, ast.ClassDef)):
+                    return False
+                if isinstance(x, ast.Lambda) and any(a.arg == name for a in x.args.args + x.args.kwonlyargs + x.args.posonlyargs):
+                    return False
+        return n_use > 0
+
+    def _alias_of_arm(self, body):
+        last = body[-1] if body else None
+        if isinstance(last, ast.Assign) and len(last.targets) == 1 and isinstance(last.targets[0], ast.Name) and self._is_ref(last.value):
+            return last.targets[0].id
+        return None
+
+    def _sink_alias_tail(self, stmts):
+        import copy
+        for i, st in enumerate(stmts):
+            if not isinstance(st, ast.If):
+                continue
+            tail = stmts[i + 1:]
+            if not (1 <= len(tail) <= 6) or not _exits(tail) or sum(1 for t in tail for _ in ast.walk(t)) > 400:
+                continue
+            bodies = []
+
+            def arms(node):
+                bodies.append(node.body)
+                if len(node.orelse) == 1 and isinstance(node.orelse[0], ast.If):
+                    arms(node.orelse[0])
+                elif node.orelse:
+                    bodies.append(node.orelse)
+            arms(st)
+            names = {self._alias_of_arm(b) for b in bodies if not _exits(b)}
+            if len(names) != 1 or None in names:
+                continue
+            name = names.pop()
+            if not self._callee_only(tail, name):
+                continue
+
+            def sink(node):
+                if not _exits(node.body):
+                    node.body = node.body + copy.deepcopy(tail)
+                if len(node.orelse) == 1 and isinstance(node.orelse[0], ast.If):
+                    sink(node.orelse[0])
+                elif node.orelse:
+                    if not _exits(node.orelse):
+                        node.orelse = node.orelse + copy.deepcopy(tail)
+                else:
+                    node.orelse = copy.deepcopy(tail)
+            sink(st)
+            return stmts[:i + 1]
+        return stmts
+
+    def _inline_alias(self, stmts):
+        for i, st in enumerate(stmts):
+            if isinstance(st, ast.Assign) and len(st.targets) == 1 and isinstance(st.targets[0], ast.Name) and self._is_ref(st.value):
+                rest = stmts[i + 1:]
+                name = st.targets[0].id
+                base = st.value
+                while isinstance(base, ast.Attribute):
+                    base = base.value
+                if rest and _exits(rest) and self._callee_only(rest, name) and base.id != name and \
+                        not any(isinstance(x, ast.Name) and x.id == base.id and not isinstance(x.ctx, ast.Load) for t in rest for x in ast.walk(t)):
+                    sub = _SubstName(name, st.value)
+                    return stmts[:i] + self._inline_alias([sub.visit(t) for t in rest])
+        return stmts
+
     # ---- N9  xs = [display / comprehension]; <statement using xs once>   ->   the statement with the list in place
     def _inline_lists(self, stmts, scope):
         out = []
@@ -202,7 +378,8 @@ class _Normalise(ast.NodeTransformer):
         while i < len(stmts):
             st = stmts[i]
             nxt = stmts[i + 1] if i + 1 < len(stmts) else None
-            if isinstance(st, ast.Assign) and len(st.targets) == 1 and isinstance(st.targets[0], ast.Name) and isinstance(st.value, ast.ListComp) \
+            if isinstance(st, ast.Assign) and len(st.targets) == 1 and isinstance(st.targets[0], ast.Name) \
+                    and (isinstance(st.value, ast.ListComp) or (isinstance(nxt, ast.Return) and isinstance(st.value, ast.Attribute) and self._is_ref(st.value))) \
                     and isinstance(nxt, (ast.Return, ast.Assign, ast.Expr)):
                 name = st.targets[0].id
                 uses = [n for n in ast.walk(nxt) if isinstance(n, ast.Name) and n.id == name]
@@ -222,6 +399,8 @@ class _Normalise(ast.NodeTransformer):
             if isinstance(stmts, list) and stmts and isinstance(stmts[0], ast.stmt):
                 stmts = self._fold_append_loops(stmts)
                 stmts = self._sink_returns(stmts)
+                stmts = self._sink_alias_tail(stmts)
+                stmts = self._inline_alias(stmts)
                 setattr(node, fld, stmts)
         for ch in ast.iter_child_nodes(node):
             if isinstance(ch, (ast.FunctionDef, ast.AsyncFunctionDef)):
@@ -233,12 +412,38 @@ class _Normalise(ast.NodeTransformer):
         for fld in ('body', 'orelse', 'finalbody'):
             stmts = getattr(node, fld, None)
             if isinstance(stmts, list) and stmts and isinstance(stmts[0], ast.stmt) and scope is not None:
-                setattr(node, fld, self._inline_lists(stmts, scope))
+                for _ in range(4):
+                    new = self._inline_lists(stmts, scope)
+                    if len(new) == len(stmts):
+                        break
+                    stmts = new
+                setattr(node, fld, stmts)
         for ch in ast.iter_child_nodes(node):
             if isinstance(ch, (ast.FunctionDef, ast.AsyncFunctionDef)):
                 self._inline_pass(ch, ch)
             elif isinstance(ch, (ast.stmt, ast.ExceptHandler)):
                 self._inline_pass(ch, scope)
+
+
+class _SubstName(ast.NodeTransformer):
+    def __init__(self, name, value):
+        self.name, self.value = name, value
+
+    def visit_Name(self, n):
+        if n.id == self.name and isinstance(n.ctx, ast.Load):
+            import copy
+            return copy.deepcopy(self.value)
+        return n
+
+
+class _ReplaceNode(ast.NodeTransformer):
+    def __init__(self, target, value):
+        self.target, self.value = target, value
+
+    def visit(self, n):
+        if n is self.target:
+            return self.value
+        return self.generic_visit(n)
 
 
 class _Replace(ast.NodeTransformer):
@@ -251,6 +456,77 @@ class _Replace(ast.NodeTransformer):
 
 def _refs(node, name):
     return any(isinstance(x, ast.Name) and x.id == name for x in ast.walk(node))
+
+
+# ---- N13  calls of small private value helpers of the same module are replaced by the helper's result expression
+def _inline_helpers(tree):
+    from .boolfold import value_expr
+    import copy
+    helpers = {}
+    for st in tree.body:
+        if isinstance(st, ast.FunctionDef) and st.name.startswith('_') and not st.name.startswith('__') and not st.decorator_list \
+                and st.args.vararg is None and st.args.kwarg is None and not st.args.kwonlyargs and not st.args.posonlyargs:
+            if any(isinstance(x, ast.Name) and x.id == st.name for x in ast.walk(st)):
+                continue
+            e = value_expr(st)
+            if e is None or sum(1 for _ in ast.walk(e)) > 80:
+                continue
+            params = [a.arg for a in st.args.args]
+            # every name the expression reads is a parameter or a module-level / builtin name (no leftover local)
+            stored = {x.id for x in ast.walk(st) if isinstance(x, ast.Name) and isinstance(x.ctx, ast.Store)}
+            if any(isinstance(x, ast.Name) and x.id in stored and x.id not in params for x in ast.walk(e)):
+                continue
+            if any(isinstance(x, (ast.Lambda, ast.ListComp, ast.GeneratorExp, ast.SetComp, ast.DictComp, ast.NamedExpr, ast.Yield, ast.Await)) for x in ast.walk(e)):
+                continue
+            if any(p_ in stored for p_ in params):
+                continue          # a parameter is rebound in the helper: the fold has substituted it, keep it simple
+            defaults = dict(zip(params[len(params) - len(st.args.defaults):], st.args.defaults))
+            helpers[st.name] = (params, defaults, e)
+    if not helpers:
+        return tree
+
+    class Inl(ast.NodeTransformer):
+        def visit_FunctionDef(self, n):
+            if n.name in helpers and n in tree.body:
+                return n
+            return self.generic_visit(n)
+
+        def visit_Call(self, c):
+            self.generic_visit(c)
+            if isinstance(c.func, ast.Name) and c.func.id in helpers and not any(isinstance(a, ast.Starred) for a in c.args) \
+                    and all(k.arg for k in c.keywords):
+                params, defaults, e = helpers[c.func.id]
+                if len(c.args) > len(params):
+                    return c
+                env = dict(zip(params, c.args))
+                for k in c.keywords:
+                    if k.arg not in params or k.arg in env:
+                        return c
+                    env[k.arg] = k.value
+                for p_ in params:
+                    if p_ not in env:
+                        if p_ not in defaults:
+                            return c
+                        env[p_] = defaults[p_]
+                node = _SubstMany(env).visit(copy.deepcopy(e))
+                for x in ast.walk(node):
+                    ast.copy_location(x, c)
+                return node
+            return c
+    for _ in range(2):
+        tree = Inl().visit(tree)
+    return tree
+
+
+class _SubstMany(ast.NodeTransformer):
+    def __init__(self, env):
+        self.env = env
+
+    def visit_Name(self, n):
+        if isinstance(n.ctx, ast.Load) and n.id in self.env:
+            import copy
+            return copy.deepcopy(self.env[n.id])
+        return n
 
 
 def _exits(body):
@@ -286,9 +562,11 @@ def annotate_continuations(tree):
 def normalise(tree):
     if os.environ.get('VERIF_NO_NORMALIZE') == '1':
         return tree
+    tree = _inline_helpers(tree)
     nz = _Normalise()
     tree = nz.visit(tree)
     nz._blocks(tree, None)
+    tree = nz.visit(tree)            # N10 on the comprehensions N7 produced
     nz._inline_pass(tree, None)
     ast.fix_missing_locations(tree)
     annotate_continuations(tree)
